@@ -45,13 +45,14 @@ fn slot(addr: usize) -> usize {
 unsafe fn t_insert(e: Entry) {
     let mut i = slot(e.addr);
     loop {
-        if TABLE[i].addr == 0 || TABLE[i].addr == 1 {
+        if TABLE[i].addr == 0 {
             TABLE[i] = e;
             return;
         }
         i = (i + 1) & (TSIZE - 1);
     }
 }
+/// linear probing with backward-shift deletion (no tombstones: millions of short-lived blocks pass through)
 unsafe fn t_remove(addr: usize) -> Option<Entry> {
     let mut i = slot(addr);
     loop {
@@ -59,12 +60,28 @@ unsafe fn t_remove(addr: usize) -> Option<Entry> {
             return None;
         }
         if TABLE[i].addr == addr {
-            let e = TABLE[i];
-            TABLE[i].addr = 1; // tombstone
-            return Some(e);
+            break;
         }
         i = (i + 1) & (TSIZE - 1);
     }
+    let found = TABLE[i];
+    let mut hole = i;
+    let mut j = (i + 1) & (TSIZE - 1);
+    loop {
+        if TABLE[j].addr == 0 {
+            break;
+        }
+        let home = slot(TABLE[j].addr);
+        // can the entry at j move into the hole? yes iff its home is not in the cyclic range (hole, j]
+        let in_range = if hole <= j { home > hole && home <= j } else { home > hole || home <= j };
+        if !in_range {
+            TABLE[hole] = TABLE[j];
+            hole = j;
+        }
+        j = (j + 1) & (TSIZE - 1);
+    }
+    TABLE[hole].addr = 0;
+    Some(found)
 }
 fn violation(kind: usize, a: usize, b: usize) {
     VIOLATIONS.fetch_add(1, SeqCst);
